@@ -113,9 +113,14 @@ func (p *StreamProp) NumUnits(tier string, seed int64) int {
 }
 
 // enumerate the states of a workspace for a tier (deterministic).
-func (p *StreamProp) states(ws *core.Workspace, tier string, seed int64, srcIdx int) []State {
+func (p *StreamProp) states(ws *core.Workspace, tier string, seed int64, srcIdx int, rc Recipe) []State {
 	var out []State
 	pstep, tstep := p.prefixStep[tier], p.tokStep[tier]
+	if strings.Contains(rc.Opt, "wide") && p.id != "C06" {
+		// bodies of 90..130 attributes answer every completion with a full candidate list:
+		// they are there for the candidate limit (C06) and sampled more coarsely elsewhere
+		pstep, tstep = pstep*5, tstep*5
+	}
 	paths := append([]string{}, ws.Order...)
 	for _, path := range paths {
 		spec := ws.Paths[path]
@@ -174,7 +179,7 @@ func (p *StreamProp) RunUnit(idx int, tier string, seed int64, focus map[string]
 		rep.Inconclusive(fmt.Sprintf("source %s cannot be built: %v", src.Recipe, err))
 		return
 	}
-	states := p.states(base, tier, seed, si)
+	states := p.states(base, tier, seed, si, src.Recipe)
 	rep.Distinct("sources", src.Recipe.String())
 	for sti, st := range states {
 		if sti%k != chunk {
@@ -271,6 +276,12 @@ func (p *StreamProp) runState(unit, sti int, rc Recipe, st State, rep *runner.Re
 	all := tab.Offsets()
 	if st.Mut.Kind == "none" {
 		offs = all
+		if strings.Contains(rc.Opt, "wide") && p.id != "C06" {
+			offs = nil
+			for i := sti % 4; i < len(all); i += 4 {
+				offs = append(offs, all[i])
+			}
+		}
 	} else {
 		lo, hi := editAt-48, editAt+8
 		if st.Mut.Kind != "prefix" {
